@@ -172,3 +172,24 @@ def manifests(n_keys, with_default_method=False):
     for keys in itertools.permutations(KEYS, n_keys):
         for meths in itertools.product(ms, repeat=n_keys):
             yield [[k, m, i] for i, (k, m) in enumerate(zip(keys, meths))]
+
+
+# ---- nested keys named like the files that deployment writes later, below a folder deployed from a PLAIN source
+# (a folder that does not contain those names). The third element of an entry is then a source token instead of an
+# index: 'plain' = <package>/plain (folder: keep.txt only), 'vfile' = <package>/vfile.txt (a precious file),
+# 'missing' = <package>/missing.txt (does not exist: a link to it dangles until something writes through it).
+LATER_IN = {'conf': ['flowir_package.yaml', 'dsl.yaml', 'flowir_instance.yaml', 'manifest.yaml'], 'data': ['big.csv']}
+
+
+def nested_later_manifests():
+    """[folder entry, nested entry] in both orders, and the nested entry alone; every method and source kind."""
+    for folder, names in LATER_IN.items():
+        for name in names:
+            for m2 in METHODS:
+                for src2 in ('vfile', 'missing', 'plain'):
+                    nested = ['%s/%s' % (folder, name), m2, src2]
+                    yield [nested]
+                    for m1 in METHODS:
+                        first = [folder, m1, 'plain']
+                        yield [first, nested]
+                        yield [nested, first]
